@@ -107,6 +107,11 @@ class C10(P.Property):
                      decoy=rng.random() < 0.5, gc_every=rng.choice([0, 0, 1, 3]),
                      digest=rng.choice(["unique", "unique", "same", "none"]), sid_style=rng.choice(["hex", "hex", "dotted", "long", "glob"]),
                      read_fault=({"step": rng.randrange(len(steps)), "skip": rng.choice([0, 0, 1, 2])} if rng.random() < 0.1 else None))
+        if rng.random() < 0.3:
+            knobs["mtime_gran"] = rng.choice([1, 2])  # a file system with coarse time stamps: writes within one tick carry the same stamp
+        if rng.random() < 0.15 and steps:
+            # the wall clock is stepped before that step (NTP correction, VM resume): time.time() and new file stamps jump, loop time does not
+            knobs["clock_steps"] = {str(rng.randrange(len(steps))): rng.choice([-3600.0, -5.0, -0.5, -3 * 86400.0, 3600.0, 9 * 86400.0])}
         return {"property": "C10", "seed": seed, "knobs": knobs, "steps": steps}
 
     def enumerate(self, tier):
@@ -446,7 +451,7 @@ class C10(P.Property):
 
     def simplifications(self, plan):
         k = plan["knobs"]
-        for key, val in (("skew", 1.0), ("bufsize", 8192), ("scheme", "CJJ14.PiBas"), ("net", dict(lo=0.01, hi=0.01)), ("forced_gap", 0), ("decoy", False), ("gc_every", 0), ("digest", "unique"), ("sid_style", "hex"), ("read_fault", None)):
+        for key, val in (("skew", 1.0), ("bufsize", 8192), ("scheme", "CJJ14.PiBas"), ("net", dict(lo=0.01, hi=0.01)), ("forced_gap", 0), ("decoy", False), ("gc_every", 0), ("digest", "unique"), ("sid_style", "hex"), ("read_fault", None), ("mtime_gran", None), ("clock_steps", None)):
             if k.get(key) != val:
                 yield dict(plan, knobs=dict(k, **{key: val}))
         steps = plan["steps"]
